@@ -7,20 +7,28 @@ source shows up), the cached max_node is never compared."""
 from common import *
 
 chk = Check('C12')
-chk.extra['rule'] = ('op sequences over a pool of <= 5 real Molecule objects with arbitrary integer keys (sparse, negative, '
-                     're-added); after every op the whole pool is dumped and compared with the model; a sequence is '
-                     'non-trivial if it contains >= 1 removal or merge and >= 1 interaction; distinct = distinct op sequence')
+chk.extra['rule'] = ('op sequences over a pool of real Molecule objects with arbitrary integer keys (sparse, negative, '
+                     're-added) and up to 3 real System objects that REFER to pool members (add_molecule, System.copy, '
+                     'MergeAllMolecules, MergeChains; remove_matching_interaction and prune_edges_* among the molecule ops); '
+                     'after every op the whole pool and the molecule lists of all systems are dumped and compared with the model; '
+                     'a sequence is non-trivial if it contains >= 1 removal or merge and >= 1 interaction; distinct = distinct op '
+                     'sequence; add_edges_at_distance is checked by the oracle only (cases edge-dist-*)')
 chk.lean(['VermouthProps.C12'], 'driver_c12')
 
 import networkx as nx
-from vermouth.molecule import Molecule, Block, Interaction
+import numpy as np
+from vermouth.molecule import Molecule, Block, Interaction, DeleteInteraction
+from vermouth.system import System
+from vermouth.processors.merge_all_molecules import MergeAllMolecules
+from vermouth.processors.merge_chains import MergeChains
+from vermouth import edge_tuning
 
 TYPES = ['bonds', 'angles', 'constraints']
 CITES = ['paperA', 'paperB', 'paperC']
 
 
 def dump_mol(m):
-    nodes = [[k, d.get('atomname'), d.get('resid'), d.get('charge_group')] for k, d in m.nodes(data=True)]
+    nodes = [[k, d.get('atomname'), d.get('resid'), d.get('charge_group'), d.get('chain')] for k, d in m.nodes(data=True)]
     edges = sorted({(min(u, v), max(u, v)) for u, v in m.edges})
     inters = []
     for t in sorted(m.interactions):
@@ -29,12 +37,29 @@ def dump_mol(m):
     return [nodes, [list(e) for e in edges], inters, sorted(m.citations), m.nrexcl]
 
 
-def dump_pool(pool):
-    return enc([dump_mol(m) for m in pool])
+def dump_systems(pool, systems):
+    ids = {id(m): k for k, m in enumerate(pool)}
+    return [[ids[id(m)] for m in s.molecules] for s in systems]
 
 
-def attrs_kw(name, resid, cg):
+def dump_pool(pool, systems=()):
+    return enc([dump_mol(m) for m in pool]) + ' ' + enc(dump_systems(pool, systems))
+
+
+def adopt(pool, systems):
+    """molecules created by a system operation (copies, the merged molecule) join the pool"""
+    ids = {id(m) for m in pool}
+    for s in systems:
+        for m in s.molecules:
+            if id(m) not in ids:
+                ids.add(id(m))
+                pool.append(m)
+
+
+def attrs_kw(name, resid, cg, chain=None):
     kw = {}
+    if chain is not None:
+        kw['chain'] = chain
     if name is not None:
         kw['atomname'] = name
     if resid is not None:
@@ -44,9 +69,49 @@ def attrs_kw(name, resid, cg):
     return kw
 
 
-def apply(pool, op):
+def apply_sys(pool, systems, op):
+    kind = op[0]
+    if kind == 'newsys':
+        systems.append(System())
+        return 'ok'
+    s = op[1]
+    if s >= len(systems):
+        return 'badindex'
+    system = systems[s]
+    if kind == 'addmol':
+        if op[2] >= len(pool):
+            return 'badindex'
+        system.add_molecule(pool[op[2]])
+    elif kind == 'copysys':
+        systems.append(system.copy())
+    elif kind == 'mergeall':
+        mols = system.molecules
+        if mols and any(m is mols[0] for m in mols[1:]):
+            return 'badindex'          # merging an object into itself is outside the model
+        try:
+            MergeAllMolecules().run_system(system)
+        except ValueError:
+            return 'valueerror'
+    elif kind == 'mergechains':
+        try:
+            MergeChains(chains=list(op[2]), all_chains=bool(op[3])).run_system(system)
+        except ValueError:
+            return 'valueerror'
+    else:
+        raise AssertionError(kind)
+    adopt(pool, systems)
+    return 'ok'
+
+
+SYS_OPS = ('newsys', 'addmol', 'copysys', 'mergeall', 'mergechains')
+SYS_RATE = 0.12
+
+
+def apply(pool, op, systems=None):
     """Apply one op to the real pool; return outcome string."""
     kind = op[0]
+    if kind in SYS_OPS:
+        return apply_sys(pool, systems, op)
     try:
         if kind == 'new':
             m = Molecule(nrexcl=op[1])
@@ -57,8 +122,8 @@ def apply(pool, op):
             b = Block(nrexcl=nrexcl)
             b.name = 'BLK'
             b.citations = set(cites)
-            for n, an, r, c in nodes:
-                b.add_node(n, **attrs_kw(an, r, c))
+            for n, *at in nodes:
+                b.add_node(n, **attrs_kw(*at))
             for ty, ats, pr, v in inters:
                 b.interactions[ty].append(Interaction(atoms=tuple(ats), parameters=[pr], meta={'version': v} if v else {}))
             for u, v in edges:
@@ -74,9 +139,9 @@ def apply(pool, op):
                 return 'badindex'
             m = pool[i]
             if kind == 'addnode':
-                m.add_node(op[2], **attrs_kw(*op[3:6]))
+                m.add_node(op[2], **attrs_kw(*op[3:]))
             elif kind == 'addnodes':
-                m.add_nodes_from([(k, attrs_kw(n, r, c)) for k, n, r, c in op[2]])
+                m.add_nodes_from([(k, attrs_kw(*at)) for k, *at in op[2]])
             elif kind == 'rmnode':
                 try:
                     m.remove_node(op[2])
@@ -95,6 +160,22 @@ def apply(pool, op):
                                              citations=set(op[6]))
             elif kind == 'rminter':
                 m.remove_interaction(op[2], tuple(op[3]), version=op[4])
+            elif kind == 'rmmatch':
+                _, _, ty, ats, pr, v, aa = op
+                meta = {'version': v} if v is not None else {}
+                params = [pr] if pr is not None else []
+                if aa is None:
+                    tmpl = Interaction(atoms=tuple(ats), parameters=params, meta=meta)
+                else:
+                    tmpl = DeleteInteraction(atoms=tuple(ats), atom_attrs=[attrs_kw(*a) for a in aa],
+                                             parameters=params, meta=meta)
+                m.remove_matching_interaction(ty, tmpl)
+            elif kind == 'prune':
+                edge_tuning.prune_edges_between_selections(m, list(op[2]), list(op[3]))
+            elif kind == 'prunesel':
+                sel_a = (lambda d, n=op[2]: d.get('atomname') == n)
+                sel_b = None if op[3] is None else (lambda d, n=op[3][0]: d.get('atomname') == n)
+                edge_tuning.prune_edges_with_selectors(m, sel_a, sel_b)
             elif kind == 'copy':
                 pool.append(m.copy())
             elif kind == 'subgraph':
@@ -136,11 +217,58 @@ def gen_key(rng, m):
 
 def gen_attrs(rng):
     # 0 and negative residue numbers / charge groups are legal and falsy values must not be taken for "absent"
-    return [rng.choice([None, 'A', 'B', 'CA', 'N', '']), rng.choice([None, 1, 2, 5, 9, 0, -1]), rng.choice([None, 1, 2, 3, 7, 0, -2])]
+    return [rng.choice([None, 'A', 'B', 'CA', 'N', '']), rng.choice([None, 1, 2, 5, 9, 0, -1]), rng.choice([None, 1, 2, 3, 7, 0, -2]),
+            rng.choice([None, None, 'A', 'A', 'B', ''])]
 
 
-def gen_op(rng, pool):
+def gen_template_attrs(rng, m, atoms):
+    """per-atom attribute templates of a DeleteInteraction: mostly what the atoms have, sometimes something else"""
+    out = []
+    for a in atoms:
+        d = m.nodes[a] if (m is not None and a in m.nodes) else {}
+        t = [None, None, None, None]
+        for pos, key in enumerate(['atomname', 'resid', 'charge_group', 'chain']):
+            r = rng.random()
+            if r < 0.30 and d.get(key) is not None:
+                t[pos] = d[key]
+            elif r < 0.33:
+                t[pos] = gen_attrs(rng)[pos]
+        out.append(t)
+    if atoms and rng.random() < 0.15:
+        out.pop()            # zip() stops at the shorter list
+    return out
+
+
+def gen_sys_op(rng, pool, systems):
+    ns, n = len(systems), len(pool)
+    if ns == 0 or (ns < 3 and rng.random() < 0.07):
+        return ('newsys',)
+    s = rng.randrange(ns) if rng.random() < 0.95 else ns + 1
+    r = rng.random()
+    if s < ns and len(systems[s].molecules) < rng.choice([1, 2, 3, 4]) and rng.random() < 0.8:
+        r = 0.0              # fill the system first
+    if r < 0.30:
+        # prefer molecules that are not yet in the system (an object merged into itself is outside the model)
+        cand = [k for k in range(n) if s >= ns or all(pool[k] is not m for m in systems[s].molecules)]
+        if cand and rng.random() < 0.9:
+            return ('addmol', s, rng.choice(cand))
+        return ('addmol', s, rng.randrange(n + 1))
+    if r < 0.42 and n < 9:
+        return ('copysys', s)
+    if r < 0.68 or n >= 12:          # every successful MergeChains adds a molecule: keep the pool small
+        return ('mergeall', s)
+    rr = rng.random()
+    if rr < 0.3:
+        return ('mergechains', s, [], True)
+    if rr < 0.9:
+        return ('mergechains', s, rng.sample([None, 'A', 'B', '', 'Z'], rng.randint(1, 3)), False)
+    return ('mergechains', s, rng.choice([[], ['A']]), rng.choice([False, True]))
+
+
+def gen_op(rng, pool, systems=None):
     n = len(pool)
+    if systems is not None and n > 0 and rng.random() < SYS_RATE:
+        return gen_sys_op(rng, pool, systems)
     if n == 0 or (n < 5 and rng.random() < 0.08):
         if rng.random() < 0.4:
             names = rng.sample(['N', 'CA', 'C', 'O', 'CB', 'X'], rng.randint(0, 4))
@@ -166,20 +294,41 @@ def gen_op(rng, pool):
     if r < 0.45:
         return ('addedge', i, gen_key(rng, m), gen_key(rng, m))
     if r < 0.60:
+        if m is not None and rng.random() < 0.2:
+            # the same atoms again with other parameters / version: several candidates for remove_matching_interaction
+            ex = [(t, x) for t in m.interactions for x in m.interactions[t]]
+            if ex:
+                t, x = rng.choice(ex)
+                return ('addinter', i, t, list(x.atoms), rng.choice(['p', 'q', 'r']), rng.choice([0, 0, 1, 2]))
         return ('addinter', i, rng.choice(TYPES), [gen_key(rng, m) for _ in range(rng.randint(1, 3))], rng.choice(['p', 'q', 'r']), rng.choice([0, 0, 1]))
     if r < 0.68:
         return ('addorrep', i, rng.choice(TYPES), [gen_key(rng, m) for _ in range(rng.randint(1, 3))], rng.choice(['p', 'q', 'r']), rng.choice([0, 0, 1]),
                 rng.sample(CITES, rng.randint(0, 2)))
     if r < 0.75:
-        if m is not None and rng.random() < 0.7:
-            its = [(t, x) for t in m.interactions for x in m.interactions[t]]
-            if its:
+        its = [(t, x) for t in m.interactions for x in m.interactions[t]] if m is not None else []
+        if rng.random() < (0.55 if its else 0.1):
+            # remove_matching_interaction: template from an existing interaction, loosened or spoiled
+            if its and rng.random() < 0.9:
                 t, x = rng.choice(its)
-                return ('rminter', i, t, list(x.atoms), x.meta.get('version', 0))
+                atoms, pr, v = list(x.atoms), x.parameters[0], x.meta.get('version')
+            else:
+                t, atoms, pr, v = rng.choice(TYPES), [gen_key(rng, m) for _ in range(rng.randint(1, 2))], 'p', None
+            pr = rng.choice([None, None, pr, pr, pr, 'zz'])
+            # the harness stores version 0 as "no version key", so a template never asks for version 0
+            v = rng.choice([None, None, None, v, v, 2]) or None
+            aa = gen_template_attrs(rng, m, atoms) if rng.random() < 0.4 else None
+            return ('rmmatch', i, t, atoms, pr, v, aa)
+        if its and rng.random() < 0.7:
+            t, x = rng.choice(its)
+            return ('rminter', i, t, list(x.atoms), x.meta.get('version', 0))
         return ('rminter', i, rng.choice(TYPES), [gen_key(rng, m)], 0)
-    if r < 0.80 and n < 5:
+    if r < 0.78:
+        if rng.random() < 0.5:
+            return ('prune', i, [gen_key(rng, m) for _ in range(rng.randint(0, 3))], [gen_key(rng, m) for _ in range(rng.randint(0, 3))])
+        return ('prunesel', i, rng.choice(['A', 'B', 'CA', 'N', '']), rng.choice([None, None, ['A'], ['N'], ['']]))
+    if r < 0.82 and n < 5:
         return ('copy', i)
-    if r < 0.86 and n < 5:
+    if r < 0.87 and n < 5:
         ks = list(m.nodes) if m is not None else []
         sub = rng.sample(ks, rng.randint(0, len(ks))) if ks else []
         if rng.random() < 0.1:
@@ -196,20 +345,20 @@ def gen_op(rng, pool):
 
 def gen_sequence(rng, length):
     """Generate ops against a live pool (generation needs the current keys)."""
-    pool, ops, outs, dumps = [], [], [], []
+    pool, systems, ops, outs, dumps = [], [], [], [], []
     for _ in range(length):
-        op = gen_op(rng, pool)
+        op = gen_op(rng, pool, systems)
         ops.append(op)
-        outs.append(apply(pool, op))
-        dumps.append(dump_pool(pool))
+        outs.append(apply(pool, op, systems))
+        dumps.append(dump_pool(pool, systems))
     return ops, outs, dumps, pool
 
 
 def replay_sequence(ops):
-    pool, outs, dumps = [], [], []
+    pool, systems, outs, dumps = [], [], [], []
     for op in ops:
-        outs.append(apply(pool, op))
-        dumps.append(dump_pool(pool))
+        outs.append(apply(pool, op, systems))
+        dumps.append(dump_pool(pool, systems))
     return outs, dumps, pool
 
 
@@ -234,27 +383,178 @@ def check_consistency(pool):
     return errs
 
 
+def merged_expectation(acc, operands):
+    """Independent statement of merge_all_keeps on dumps: what `acc` must look like after the operands were
+    merged into it one after the other.  Returns (nodes, edge set, interactions as sorted reprs)."""
+    nodes = [list(r) for r in acc[0]]
+    edges = {tuple(e) for e in acc[1]}
+    inters = [list(x) for x in acc[2]]
+    for b in operands:
+        if nodes:
+            last = max(nodes, key=lambda r: r[0])
+            off, roff, coff = last[0], (last[2] if last[2] is not None else 1), (last[3] if last[3] is not None else 1)
+        else:
+            off = roff = coff = 0
+        corr = {}
+        for i, r in enumerate(b[0]):
+            corr[r[0]] = off + 1 + i
+            nodes.append([off + 1 + i, r[1], (r[2] if r[2] is not None else 1) + roff, (r[3] if r[3] is not None else 1) + coff, r[4]])
+        edges |= {(min(corr[u], corr[v]), max(corr[u], corr[v])) for u, v in b[1] if u != v}
+        inters += [[t, [corr[x] for x in ats], p, v] for t, ats, p, v in b[2]]
+    return nodes, edges, sorted(map(repr, inters))
+
+
+def system_oracle(op, out, before, after, sys_before, sys_after):
+    errs = []
+    kind = op[0]
+    if kind == 'newsys':
+        if sys_after != sys_before + [[]] or after != before:
+            errs.append('newsys did more than append an empty system')
+        return errs
+    s = op[1]
+    if s >= len(sys_before):
+        return errs
+    idxs = sys_before[s]
+    if kind == 'mergeall':
+        chk.count('mergeall_%s_operands_%s' % (out, min(len(idxs), 4)))
+    if kind == 'mergechains' and out != 'badindex':
+        allc, chains = bool(op[3]), list(op[2])
+        if not ((allc and chains) or (not allc and not chains)):
+            nsel = sum(1 for k in idxs if allc or all(r[4] in chains for r in before[k][0]))
+            chk.count('mergechains_%s_selected_%s_of_%s' % (out, 'none' if nsel == 0 else 'all' if nsel == len(idxs) else 'one' if nsel == 1 else 'some',
+                                                            min(len(idxs), 4)))
+        else:
+            chk.count('mergechains_%s_badargs' % out)
+    if kind == 'addmol' and out == 'ok':
+        if sys_after[s] != idxs + [op[2]] or after != before:
+            errs.append('add_molecule did more than append the reference')
+    elif kind == 'copysys' and out == 'ok':
+        new = sys_after[-1]
+        if len(sys_after) != len(sys_before) + 1 or new != list(range(len(before), len(before) + len(idxs))):
+            errs.append('System.copy: the molecules of the copy are not new objects (indices %r)' % (new,))
+        elif [after[k] for k in new] != [before[k] for k in idxs]:
+            errs.append('System.copy: a copied molecule differs from its source')
+    elif kind == 'mergeall' and out == 'ok' and idxs:
+        if sys_after[s] != [idxs[0]]:
+            errs.append('MergeAllMolecules: the system does not hold exactly the first molecule afterwards')
+        nodes, edges, inters = merged_expectation(before[idxs[0]], [before[k] for k in idxs[1:]])
+        got = after[idxs[0]]
+        if got[0] != nodes:
+            errs.append('MergeAllMolecules: atoms are not those of all operands in order, renumbered and shifted uniformly')
+        if len({r[0] for r in got[0]}) != len(got[0]) or len(got[0]) != sum(len(before[k][0]) for k in idxs):
+            errs.append('MergeAllMolecules: an atom is missing, duplicated or overwritten')
+        if {tuple(e) for e in got[1]} != edges:
+            errs.append('MergeAllMolecules: bonds are not those of all operands')
+        if sorted(map(repr, got[2])) != inters:
+            errs.append('MergeAllMolecules: interactions are not those of all operands')
+    elif kind == 'mergeall' and out == 'valueerror':
+        eff = None
+        # a failure needs two operands whose nrexcl differ
+        if len({before[k][4] for k in idxs}) < 2:
+            errs.append('MergeAllMolecules: ValueError although all nrexcl agree')
+    elif kind == 'mergechains':
+        chains, allc = list(op[2]), bool(op[3])
+        if (allc and chains) or (not allc and not chains):
+            if out != 'valueerror':
+                errs.append('MergeChains: chains and all_chains both/neither given but outcome %s' % out)
+            return errs
+        sel = [allc or all(r[4] in chains for r in before[k][0]) for k in idxs]
+        chosen = [k for k, f in zip(idxs, sel) if f]
+        if out == 'ok' and not chosen:
+            if sys_after[s] != idxs or len(after) != len(before):
+                errs.append('MergeChains: nothing selected but the system changed')
+        elif out == 'ok':
+            n = len(before)
+            want, done = [], False
+            for k, f in zip(idxs, sel):
+                if not f:
+                    want.append(k)
+                elif not done:
+                    want.append(n)
+                    done = True
+            if len(after) != n + 1 or sys_after[s] != want:
+                errs.append('MergeChains: molecule list %r, expected %r' % (sys_after[s], want))
+            else:
+                nodes, edges, inters = merged_expectation([[], [], [], [], None], [before[k] for k in chosen])
+                got = after[n]
+                if got[0] != nodes or {tuple(e) for e in got[1]} != edges or sorted(map(repr, got[2])) != inters:
+                    errs.append('MergeChains: the merged molecule is not the selected molecules in order, renumbered and shifted uniformly')
+                if set(got[3]) != {'vermouth'}.union(*[set(before[k][3]) for k in chosen]):
+                    errs.append('MergeChains: citations of the merged molecule')
+        elif out == 'valueerror' and len({before[k][4] for k in chosen}) < 2:
+            errs.append('MergeChains: ValueError although all selected nrexcl agree')
+    return errs
+
+
 def run_sequence(ops):
     """Run ops on the real code with the oracle evaluated after every op.
     Returns (outs, dumps, errs)."""
-    pool, outs, dumps, errs = [], [], [], []
+    pool, systems, outs, dumps, errs = [], [], [], [], []
     for step, op in enumerate(ops):
         before = [dump_mol(m) for m in pool]
-        out = apply(pool, op)
+        sys_before = dump_systems(pool, systems)
+        out = apply(pool, op, systems)
         outs.append(out)
-        dumps.append(dump_pool(pool))
+        dumps.append(dump_pool(pool, systems))
         after = [dump_mol(m) for m in pool]
+        sys_after = dump_systems(pool, systems)
         for e in check_consistency(pool):
             errs.append('step %d %s: %s' % (step, op[0], e))
+        for k, (b, a) in enumerate(zip(before, after)):
+            if [r[0] for r in a[0]] != [r[0] for r in b[0]] and op[0] in ('prune', 'prunesel', 'rmmatch', 'addinter', 'addorrep', 'rminter'):
+                errs.append('step %d %s changed the atoms of molecule %d' % (step, op[0], k))
         # frame: only the target (or the appended molecule) may change
-        target = None if op[0] in ('new', 'fromblock', 'copy', 'subgraph') else op[1]
+        if op[0] in ('new', 'fromblock', 'copy', 'subgraph', 'newsys', 'addmol', 'copysys', 'mergechains'):
+            target = None
+        elif op[0] == 'mergeall':
+            target = sys_before[op[1]][0] if op[1] < len(sys_before) and sys_before[op[1]] else None
+        else:
+            target = op[1]
         for k, b in enumerate(before):
             if k != target and after[k] != b:
                 errs.append('step %d %s on molecule %s changed molecule %d' % (step, op[0], target, k))
-        # theorem error_no_change: a failing operation changes nothing (add_or_replace_interaction included:
-        # it can only fail in add_interaction, before the citations are touched)
-        if out != 'ok' and after[:len(before)] != before:
+        # theorem error_no_change / sstep_err: a failing operation changes nothing (add_or_replace_interaction
+        # included: it can only fail in add_interaction, before the citations are touched).  The one exception is
+        # MergeAllMolecules, which has merged the operands before the mismatching one into the first molecule.
+        if out != 'ok' and op[0] != 'mergeall' and (after[:len(before)] != before or len(after) != len(before)):
             errs.append('step %d %s failed with %s but changed the state' % (step, op[0], out))
+        if out != 'ok' and sys_after != sys_before:
+            errs.append('step %d %s failed with %s but changed a system' % (step, op[0], out))
+        if op[0] in SYS_OPS:
+            for k, (sb, sa) in enumerate(zip(sys_before, sys_after)):
+                if sb != sa and not (op[0] in ('addmol', 'mergeall', 'mergechains') and k == op[1]):
+                    errs.append('step %d %s changed system %d' % (step, op[0], k))
+            errs.extend('step %d %s: %s' % (step, op[0], e)
+                        for e in system_oracle(op, out, before, after, sys_before, sys_after))
+        elif sys_after != sys_before:
+            errs.append('step %d %s changed the systems' % (step, op[0]))
+        if op[0] == 'rmmatch':
+            b, a = (before[op[1]], after[op[1]]) if op[1] < len(before) else (None, None)
+            if b is not None:
+                chk.count('rmmatch_%s_%s' % (out, 'delete_interaction' if op[6] is not None else 'interaction'))
+                if out == 'ok' and (len(a[2]) != len(b[2]) - 1 or any(x not in b[2] for x in a[2]) or a[:2] + a[3:] != b[:2] + b[3:]):
+                    errs.append('step %d rmmatch: did not remove exactly one interaction and nothing else' % step)
+                if out == 'ok':
+                    gone = [x for k, x in enumerate(b[2]) if b[2].count(x) != a[2].count(x) and x not in b[2][:k]]
+                    if len(gone) != 1 or gone[0][0] != op[2] or gone[0][1] != list(op[3]) or (op[4] is not None and gone[0][2] != op[4]) \
+                            or (op[5] is not None and gone[0][3] != op[5]):
+                        errs.append('step %d rmmatch: removed %r, which does not match the template' % (step, gone))
+                # the FIRST interaction of the type that matches the template goes, nothing else
+                rows = {r[0]: r for r in b[0]}
+
+                def tmatch(x):
+                    if x[0] != op[2] or x[1] != list(op[3]) or (op[4] is not None and x[2] != op[4]) or (op[5] is not None and x[3] != op[5]):
+                        return False
+                    for atom, t in zip(x[1], op[6] or []):
+                        if any(val is not None and rows[atom][1 + pos] != val for pos, val in enumerate(t)):
+                            return False
+                    return True
+                hits = [k for k, x in enumerate(b[2]) if tmatch(x)]
+                if out == 'valueerror' and hits:
+                    errs.append('step %d rmmatch: ValueError although %r matches' % (step, b[2][hits[0]]))
+                if out == 'ok' and (not hits or a[2] != b[2][:hits[0]] + b[2][hits[0] + 1:]):
+                    errs.append('step %d rmmatch: the first matching interaction (%s) is not the one that was removed'
+                                % (step, b[2][hits[0]] if hits else None))
         # theorem merge_outcome: a merge fails only on an nrexcl mismatch, with ValueError
         if op[0] == 'merge' and out != 'badindex':
             a0, b0 = before[op[1]], before[op[2]]
@@ -284,7 +584,7 @@ def run_sequence(ops):
                 else:
                     roff = coff = 0
                 for r_old, r_new in zip(b0[0], new):
-                    want = [r_old[1], (r_old[2] if r_old[2] is not None else 1) + roff, (r_old[3] if r_old[3] is not None else 1) + coff]
+                    want = [r_old[1], (r_old[2] if r_old[2] is not None else 1) + roff, (r_old[3] if r_old[3] is not None else 1) + coff, r_old[4]]
                     if r_new[1:] != want:
                         errs.append('step %d merge: atom %r became %r, expected %r' % (step, r_old, r_new, want))
                         break
@@ -311,9 +611,10 @@ sequences = []
 for ops in load_corpus():
     sequences.append(ops)
 rng = chk.rng('ops')
-NSEQ = 2000 if chk.thorough else 300
+NSEQ = 2000 if chk.thorough else 500
 for s in range(NSEQ):
     L = rng.choice([5, 10, 20, 40]) if not chk.thorough else rng.choice([10, 40, 100, 300])
+    SYS_RATE = rng.choice([0.0, 0.1, 0.3])          # a third of the histories are system-heavy
     ops, _, _, _ = gen_sequence(rng, L)
     sequences.append(ops)
 
@@ -340,8 +641,64 @@ for si, (ops, outs, dumps, errs, start, n) in enumerate(per_seq):
     for o, out in zip(ops, outs):
         chk.count('op_' + o[0])
         chk.count('outcome_' + out)
-    nontriv = bool(kinds & {'rmnode', 'rmnodes', 'merge'}) and bool(kinds & {'addinter', 'addorrep', 'fromblock'})
+    nontriv = bool(kinds & {'rmnode', 'rmnodes', 'merge', 'mergeall', 'mergechains'}) and bool(kinds & {'addinter', 'addorrep', 'fromblock'})
     chk.case('seq-%d' % si, [op_line(o) for o in ops],
              impl if impl != mo else 'agree(%d steps)' % len(ops), mo if impl != mo else 'agree(%d steps)' % len(ops),
              errs[:3], nontriv)
+
+# ---- edge_tuning.add_edges_at_distance: oracle only (positions are not part of the model) ----------------------
+# integer grid positions and thresholds k + 0.5, so every distance is far from the threshold and the expectation
+# can be computed exactly on squared integers
+erng = chk.rng('edge-dist')
+for ci in range(600 if chk.thorough else 80):
+    m = Molecule(nrexcl=1)
+    keys = erng.sample(range(-4, 12), erng.randint(0 if erng.random() < 0.1 else 2, 7))
+    pos = {}
+    for k in keys:
+        kw = attrs_kw(*gen_attrs(erng))
+        if erng.random() < 0.93:
+            pos[k] = [erng.randint(0, 3) for _ in range(3)]
+            kw['position'] = np.array(pos[k], dtype=float)
+        m.add_node(k, **kw)
+    for _ in range(erng.randint(0, 4)):
+        if len(keys) >= 2:
+            m.add_edge(*erng.sample(keys, 2))
+    for _ in range(erng.randint(0, 3)):
+        if keys:
+            m.add_interaction('bonds', tuple(erng.choice(keys) for _ in range(2)), ['p'])
+    pick = lambda: [erng.choice(keys + [99]) if erng.random() < 0.9 else 77 for _ in range(erng.randint(0 if erng.random() < 0.15 else 1, 4))] if keys else []
+    sel_a, sel_b = pick(), pick()
+    thr2x4 = erng.choice([1, 9, 25])                       # (2 * threshold)^2 for thresholds 0.5, 1.5, 2.5
+    before = dump_mol(m)
+    try:
+        edge_tuning.add_edges_at_distance(m, (thr2x4 ** 0.5) / 2, sel_a, sel_b)
+        out = 'ok'
+    except KeyError:
+        out = 'keyerror'
+    except ValueError:
+        out = 'valueerror'                                 # np.stack of an empty selection
+    after = dump_mol(m)
+    chk.count('edge_dist_' + out)
+    errs = ['add_edges_at_distance: ' + e for e in check_consistency([m])]
+    if after[0] != before[0]:
+        errs.append('add_edges_at_distance changed or dropped atoms')
+    if after[2:] != before[2:]:
+        errs.append('add_edges_at_distance changed interactions, citations or nrexcl')
+    old_e, new_e = {tuple(e) for e in before[1]}, {tuple(e) for e in after[1]}
+    if not old_e <= new_e:
+        errs.append('add_edges_at_distance dropped a bond')
+    if out != 'ok' and new_e != old_e:
+        errs.append('add_edges_at_distance failed with %s but changed the bonds' % out)
+    A, B = set(sel_a) & set(keys), set(sel_b) & set(keys)
+    for u, v in new_e - old_e:
+        if not ((u in A and v in B) or (v in A and u in B)):
+            errs.append('add_edges_at_distance: new bond (%r, %r) is not between the selections' % (u, v))
+    if out == 'ok':
+        for u in A:
+            for v in B:
+                d2x4 = 4 * sum((x - y) ** 2 for x, y in zip(pos[u], pos[v]))
+                if u != v and (d2x4 < thr2x4) != ((min(u, v), max(u, v)) in new_e) and (min(u, v), max(u, v)) not in old_e:
+                    errs.append('add_edges_at_distance: pair (%r, %r) at squared distance %s/4, threshold^2 %s/4' % (u, v, d2x4, thr2x4))
+    chk.case('edge-dist-%d' % ci, line('adddist', keys, [pos.get(k) for k in keys], sel_a, sel_b, thr2x4),
+             out + ' ' + enc(after[1]), None, errs[:3], bool(new_e - old_e))
 chk.finish()
